@@ -66,30 +66,33 @@ Definition init_len (ts : list token) : option nat :=
   | [] => None
   end.
 
-(* bgroups, decided: a run of parenthesis groups that may hold flat brace groups; at one depth no brace group once a ")" has occurred *)
-Fixpoint bwalk (fuel : nat) (ts : list token) (depth : nat) (ok : bool) : bool :=
+(* bgroups, decided: a run of parenthesis groups that may hold flat brace groups; the states of the enclosing depths
+   are kept on a stack *)
+Fixpoint bwalk (fuel : nat) (ts : list token) (stack : list bstate) (s : bstate) : bool :=
   match fuel with
   | O => false
   | S f =>
       match ts with
-      | [] => Nat.eqb depth O
+      | [] => match stack with [] => true | _ :: _ => false end
       | t :: r =>
-          if is_lparen t then bwalk f r (S depth) true
-          else if is_rparen t then match depth with O => false | S d => bwalk f r d false end
+          if is_lparen t then bwalk f r (after_group s :: stack) BSafe
+          else if is_rparen t then match stack with [] => false | s' :: st => bwalk f r st s' end
           else if is_lbrace t then
-            if ok && negb (Nat.eqb depth O) then
-              let '(flat, rest) := take_plain r in
-              match rest with
-              | c :: r2 => if is_rbrace c then bwalk f r2 depth true else false
-              | [] => false
-              end
-            else false
+            match stack, s with
+            | _ :: _, BSafe =>
+                let '(flat, rest) := take_plain r in
+                match rest with
+                | c :: r2 => if is_rbrace c then bwalk f r2 stack BSafe else false
+                | [] => false
+                end
+            | _, _ => false
+            end
           else if is_rbrace t then false
-          else match depth with O => false | S _ => bwalk f r depth ok end
+          else match stack with [] => false | _ :: _ => bwalk f r stack (bstep_plain s t) end
       end
   end.
 Definition bgroups_b (ts : list token) : bool :=
-  match ts with [] => false | _ => bwalk (S (length ts)) ts O true end.
+  match ts with [] => false | _ => bwalk (S (length ts)) ts [] BSafe end.
 
 Fixpoint take_words (ts : list token) : list token * list token :=
   match ts with
